@@ -4,6 +4,13 @@ SIM_NOTE = ("trusted base: the behavioural nRF24L01+ simulator (vlib/sim, self-t
             "driver; chip assumptions (a)-(e) of DESIGN.md 2.6")
 
 CHECKS = [
+    {"property_id": "C11", "level": "exploration",
+     "text": "Hypothesis-generated header field values / buffers compared with an independently written struct layout, and "
+             "one real write() for every message length 0..144 (exhaustive over lengths, several contents/types/ids per length) "
+             "to a direct neighbour and through one router, the on-air frames captured from the simulated medium and compared "
+             "field by field with the reference fragmenter and fed to a reference TMRh20-style reassembler",
+     "design_ref": "4/C11", "note": SIM_NOTE + "; vlib/ref/frag.py is the specification of the TMRh20 fragment format",
+     "technique": "property-based testing: round-trip + differential against reference fragmenter/reassembler on captured on-air frames"},
     {"property_id": "C09", "level": "exploration",
      "text": "Hypothesis-generated interleavings of 3..12 with-blocks of 2..3 objects (RF24, FakeBLE, RF24Network, RF24Mesh in any "
              "mix) sharing one simulated radio, each block running drawn configuration calls; for every re-entry the chip's "
